@@ -609,6 +609,54 @@ func runCase(r *lib.Run, idx int, long bool) {
 		if !probeEq("after-failed-op", i, fault) {
 			return
 		}
+		// A refused block is not the only possible successor: before the retry, half of the failed
+		// stores of short scripts are followed by a DIFFERENT valid block at the same height (another
+		// fork's block, different content touching the same small set of contracts), stored and
+		// reverted again on both nodes - whatever the failed attempt left in memory must not leak
+		// into it.
+		if o.Kind == "S" && !long && rng.IntN(2) == 0 {
+			var parent []*chain.Blk
+			pst := chain.NewState()
+			if i > 0 {
+				parent, pst = s.Chains[i-1], s.States[i-1]
+			} else if len(prefixBlocks) > 0 {
+				parent, pst = prefixBlocks, stateOfPrefix(prefixBlocks)
+			}
+			if uint64(len(parent)) == o.Blk.Number() {
+				pc := &chain.Chain{Blocks: append([]*chain.Blk{}, parent...)}
+				for range parent {
+					pc.States = append(pc.States, pst)
+				}
+				if sb, err := chain.BuilderAt(pc, len(parent), newState); err == nil {
+					sg := chain.NewGen(lib.Rng("C05/sibling", uint64(idx)*1000+uint64(i)), chain.Opts{EventRich: true, NoNoopZero: lib.Avoid("noop-zero-write"), SystemOneIn: 3,
+						Versions: []string{o.Blk.Block.ProtocolVersion}})
+					if sg.Extend(pc, sb, 1) == nil {
+						sib := pc.Tip()
+						ps.AddBlock(sib)
+						r.Count("sibling_blocks_stored_after_a_failed_store", 1)
+						if err := N.StoreBlk(sib); err != nil {
+							r.Violation(fmt.Sprintf("%s:other-valid-block-refused-after-failed-store:%s", backend, fault), idx,
+								fmt.Sprintf("%s: %s failed once with an injected %s error; a different valid block at the same height is then refused: %v", backend, o, fault, err),
+								map[string]any{"script": s.opsString(), "op_index": i, "fault": fault, "error": err.Error()})
+							return
+						}
+						if T.StoreBlk(sib) != nil {
+							return
+						}
+						if !probeEq("after-a-different-block-followed-a-failed-store", i, fault) {
+							return
+						}
+						if err := N.BC.RevertHead(); err != nil {
+							r.Violation(fmt.Sprintf("%s:revert-fails-after-failed-store-and-other-block:%s", backend, fault), idx, err.Error(), map[string]any{"script": s.opsString(), "op_index": i})
+							return
+						}
+						if T.BC.RevertHead() != nil {
+							return
+						}
+					}
+				}
+			}
+		}
 		// ... and the same operation must then succeed
 		if err := apply(N, o); err != nil {
 			r.Violation(fmt.Sprintf("%s:retry-fails-after-failed-op:%s:%s", backend, o.Kind, fault), idx,
